@@ -95,9 +95,20 @@ class SeqModel(Model):
         Model.__init__(self)
         self.kind = kind
         self.et = et
+        # vector of non-trivial elements: the first write into a cell nobody constructed is its own operation class
+        self.fresh = et in ("counted", "maybe_int", "either_int_double")
 
     def enc(self, i):
-        return str(i) if self.et == "int" else str(4 * i + 1)
+        et = self.et
+        if et == "int" or et == "counted":
+            return str(i)
+        if et == "double":
+            return str(4 * i + 1)
+        if et == "maybe_int":
+            return "N" if i % 3 == 0 else "V%d" % i
+        if et == "either_int_double":
+            return "L%d" % i if i % 2 == 0 else "R%d" % (4 * i + 1)
+        raise ValueError(et)
 
     def state(self, s):
         v = self.slots[s]
@@ -132,7 +143,7 @@ class SeqModel(Model):
             return "ctor_sized0" if a == 0 else "ctor_sized"
         if op == 3:
             n = a
-            if kind != "arr" and (n < 2 or n > 5 or (n == 5 and kind == "svec")):
+            if kind != "arr" and (n < 2 or n > 5 or (n == 5 and kind == "svec") or (self.fresh and n > 3)):
                 return "skip"
             if S[x] is not None:
                 return None
@@ -177,8 +188,9 @@ class SeqModel(Model):
         if op == 8:
             if S[x] is None or not S[x] or a < 0:
                 return "skip"
+            was = S[x][a % len(S[x])]
             S[x][a % len(S[x])] = self.enc(vid(k))
-            return "write"
+            return "write_fresh" if (self.fresh and was is None) else "write"
         if op == 9:
             if S[x] is None or not S[x] or a < 0:
                 return "skip"
@@ -432,6 +444,9 @@ def alphabet(family, kind):
         if kind in ("smallu", "smalld"):
             return [(1, 0, 0), (2, 0, 2), (2, 0, 4), (2, 0, 6), (3, 0, 3), (3, 1, 5), (4, 1, 0), (5, 0, 1), (5, 1, 0), (5, 0, 0),
                     (6, 0, 0), (6, 1, 0), (7, 0, 0), (7, 0, 3), (7, 0, 4), (7, 0, 5), (7, 0, 6), (8, 0, 1), (0, 0, 0)]
+        if kind == "vnt":
+            return [(1, 0, 0), (2, 0, 0), (2, 0, 3), (3, 0, 2), (3, 1, 3), (4, 1, 0), (5, 0, 1), (5, 1, 0), (5, 0, 0),
+                    (6, 0, 0), (6, 1, 0), (7, 0, 0), (7, 0, 2), (7, 0, 5), (7, 0, 6), (8, 0, 1), (8, 1, 0), (0, 0, 0)]
         return [(1, 0, 0), (2, 0, 0), (2, 0, 3), (3, 0, 2), (3, 1, 5), (4, 1, 0), (5, 0, 1), (5, 1, 0), (5, 0, 0),
                 (6, 0, 0), (6, 1, 0), (7, 0, 0), (7, 0, 2), (7, 0, 5), (7, 0, 6), (8, 0, 1), (8, 1, 0), (0, 0, 0)]
     if family == "maybe":
@@ -496,6 +511,8 @@ def _arg(rng, family, kind, op, x=0):
             hi = CAP if kind == "svec" else CAP + 2
             return rng.randint(0, hi)
         if op == 3:
+            if kind == "vnt":
+                return rng.choice([2, 3])
             return rng.choice([2, 3, 4] if kind == "svec" else [2, 3, 4, 5])
         if op == 7:
             return rng.randint(0, 12) if (kind != "svec" and rng.random() < 0.15) else rng.randint(0, CAP + 2)
